@@ -137,10 +137,8 @@ func init() {
 	reg("time.Unix", "normalises nsec into [0,1e9)", func(ex *Exec, st *State, c *ast.CallExpr, r *Value, a []Value) []Value {
 		return []Value{timeUnix(ex.vc.timeT, a[0].scalar(), a[1].scalar())}
 	})
-	reg("time.Now", "an arbitrary valid instant", func(ex *Exec, st *State, c *ast.CallExpr, r *Value, a []Value) []Value {
-		v := freshValue("now", ex.vc.timeT)
-		st.assumeValid(v)
-		return []Value{v}
+	reg("time.Now", "an arbitrary valid instant, not earlier than the previous reading on the same path (monotonic clock reading)", func(ex *Exec, st *State, c *ast.CallExpr, r *Value, a []Value) []Value {
+		return []Value{ex.advanceClock(st)}
 	})
 	reg("(time.Duration).Abs", "absolute value; MinInt64 maps to MaxInt64", func(ex *Exec, st *State, c *ast.CallExpr, r *Value, a []Value) []Value {
 		d := r.scalar()
@@ -244,18 +242,14 @@ func init() {
 		x, y := a[0].scalar(), a[1].scalar()
 		return []Value{scalarV(types.Typ[types.Int], mkIte(mkCmp("lt", x, y), mkInt(sortInt, -1), mkIte(mkCmp("lt", y, x), mkInt(sortInt, 1), mkInt(sortInt, 0))))}
 	})
-	mr := reg("crypto/rand.Read", "fills the slice with arbitrary bytes; err == nil implies n == len(b)", func(ex *Exec, st *State, c *ast.CallExpr, r *Value, a []Value) []Value {
+	mr := reg("crypto/rand.Read", "fills the slice with arbitrary bytes; never fails (documented since Go 1.24)", func(ex *Exec, st *State, c *ast.CallExpr, r *Value, a []Value) []Value {
 		b := a[0]
 		bt := types.Typ[types.Byte]
 		lv := &LValue{kind: lvElem, rootT: bt, ref: b.L[".ref"], idx: b.L[".off"]}
 		ex.frameCheck(lv, st, c)
 		ex.havocRange(st, bt, b.L[".ref"])
-		n := freshVar("n", sortInt)
-		err := freshVar("err", sortRef)
-		st.assume(mkCmp("le", mathC(0), err))
-		st.assume(mkImplies(mkEq(err, mathC(0)), mkEq(n, b.L[".len"])))
-		st.assume(mkAnd(mkCmp("le", mkInt(sortInt, 0), n), mkCmp("le", n, b.L[".len"])))
-		return []Value{scalarV(types.Typ[types.Int], n), scalarV(ex.vc.errT, err)}
+		// Go >= 1.24: "It never returns an error, and always fills b entirely."
+		return []Value{scalarV(types.Typ[types.Int], b.L[".len"]), scalarV(ex.vc.errT, mathC(0))}
 	})
 	mr.writes = func(call *ast.CallExpr, info *types.Info, w *writes) {
 		w.fams["R|"+typeKey(types.Typ[types.Byte])+"|"] = true
@@ -477,4 +471,33 @@ func hasPrefixAny(s string, ps []string) bool {
 		}
 	}
 	return false
+}
+
+// advanceClock: a new reading of the wall clock with monotonic part: not earlier than the previous reading.
+func (ex *Exec) advanceClock(st *State) Value {
+	v := freshValue("now", ex.vc.timeT)
+	st.assumeValid(v)
+	ex.saneClock(st, v)
+	prev := ex.lastNow(st)
+	st.assume(mkNot(timeLess(v, prev)))
+	st.ghost["lastnow"] = v
+	return v
+}
+
+func (ex *Exec) lastNow(st *State) Value {
+	if g, ok := st.ghost["lastnow"]; ok {
+		return g
+	}
+	v := namedValue("ghost|lastnow0", ex.vc.timeT)
+	st.assumeValid(v)
+	ex.saneClock(st, v)
+	st.ghost["lastnow"] = v
+	return v
+}
+
+// saneClock: readings of the wall clock lie between 1970 and 2^40 s after it (year ~36812).
+func (ex *Exec) saneClock(st *State, v Value) {
+	ex.note("wall-clock readings (time.Now) lie in [1970-01-01, 1970-01-01 + 2^40 s]")
+	st.assume(mkCmp("le", mkInt(i64, 0), v.L[".sec"]))
+	st.assume(mkCmp("le", v.L[".sec"], mkInt(i64, 1<<40)))
 }
